@@ -343,6 +343,39 @@ fn wide_range_probe<I: IntInner>(vt: &'static Vt<I>, arb: fn(&[u8]) -> Result<I,
 pub fn check_c14<I: IntInner>(vt: &'static Vt<I>, ctx: &Ctx) -> DeclReport {
     let Some(arb) = vt.arbitrary else { return DeclReport::irrelevant(vt.id) };
     let m = vt.model;
+    if let Some(h) = vt.arb_history {
+        // the bound expression reads run-time state: the generator's range has to follow it
+        let mut rep = DeclReport::new(vt.id);
+        let mut prefix: Vec<String> = vec![];
+        for (label, ok) in h() {
+            prefix.push(label.clone());
+            rep.evaluations += 256 * 3;
+            rep.nontrivial += 256 * 3;
+            rep.class("generator-range-after-bound-change");
+            rep.sample("generator-range-after-bound-change", json!({"case": {"arb_history": prefix}, "range_matches_constructor": ok}));
+            if !ok {
+                let mut w = Default::default();
+                rep.viol(
+                    Viol {
+                        prop: "C14".into(),
+                        decl_id: vt.id.into(),
+                        type_name: vt.type_name.into(),
+                        decl: vt.decl.into(),
+                        signature: format!("C14|{}|generator-range-does-not-follow-the-bound-expression|vals={}", I::NAME, val_names(m)),
+                        case: json!({"arb_history": prefix}),
+                        expected: "after the limit changed, exactly the values the constructor accepts now".into(),
+                        actual: format!("another set at {label}"),
+                        shrunk: "none".into(),
+                    },
+                    0,
+                    &mut w,
+                );
+                break;
+            }
+        }
+        let _ = ctx;
+        return rep;
+    }
     // identity sanitizers only: the property is about the generator's range
     if !m.sans.is_empty() || matches!(m.vals, Vals::Custom { .. }) || m.std_vals().iter().any(|v| matches!(v, Val::Predicate { .. })) {
         return DeclReport::irrelevant(vt.id);
